@@ -6,6 +6,7 @@ import LLRP.Oracle.C16
 import LLRP.Oracle.C17
 import LLRP.Oracle.C14
 import LLRP.Oracle.C15
+import LLRP.Oracle.C12
 /-!
 `oracle`: line-protocol driver of the executable models (one request per line on stdin, one reply per line on
 stdout). Imports only `LLRP.Model.*`, `LLRP.Gen.*` and `LLRP.Oracle.*` (never Mathlib, never proofs) so that it
@@ -21,7 +22,8 @@ def handlers : List Handler := [
   handleC16,
   handleC17,
   handleC14,
-  handleC15
+  handleC15,
+  handleC12
 ]
 
 def handle (line : String) : String :=
